@@ -17,6 +17,15 @@ def case_st(draw):
     base = draw(c07.image_case())
     base["muts"] = []
     base["gz"] = 0
+    sparse = draw(st.integers(0, 3)) == 0
+    if sparse:
+        # a nearly empty disc: the whole .gz fits into one 512-byte read and the last inflate() call can fill the
+        # 1024-byte output buffer exactly while finishing the stream
+        base["surface"]["fill"] = {"kind": "zero", "seed": 0}
+        for vol in base["surface"]["volumes"]:
+            for cat in vol["cats"]:
+                for e in cat:
+                    e["body"] = {"kind": "zero", "seed": 0}
     mode = draw(st.sampled_from(["positive", "positive", "truncate", "bitflip", "notgzip", "empty", "othercompress"]))
     c = {"image": base, "mode": mode,
          "level": draw(st.integers(0, 9)), "members": draw(st.sampled_from([1, 1, 1, 2, 3])),
@@ -25,7 +34,7 @@ def case_st(draw):
          "extra": draw(st.sampled_from([None, None, b"AB\x04\x00data"])),
          "hcrc": draw(st.booleans()), "mtime": draw(st.sampled_from([0, 1, 0x7FFFFFFF])),
          "align": draw(st.sampled_from([None, None, [512, 0], [512, 1], [512, 511], [1024, 0], [1024, 1], [512, 100]])),
-         "tailcut": draw(st.sampled_from([0, 0, 1, 255, 256, 257, 511, 513, 1023, 1025])),
+         "tailcut": draw(st.sampled_from([0, 0, 0, 1, 255, 256, 257, 511, 512, 513, 768, 1023, 1024, 1025])), "sparse": sparse,
          "seed": draw(st.integers(0, 10 ** 6)), "cmds": draw(st.lists(st.integers(0, len(COMMANDS) - 1), min_size=2,
                                                                      max_size=4, unique=True))}
     return c
@@ -36,7 +45,8 @@ class C10(CheckBase):
     level = "exploration"
     variants = ("dbg", "asan")
     rule = ("generated image files of every container (ssd/sdd/dsd/ddd/mmb/hfe/mfm, Acorn/Watford/Opus, lengths cut "
-            "to values around multiples of the 512/1024-byte decompression buffers) compressed with Python zlib at "
+            "to values around multiples of the 512/1024-byte decompression buffers; a quarter of them nearly empty so that "
+            "the whole .gz fits one 512-byte read) compressed with Python zlib at "
             "levels 0-9, optional FNAME/FCOMMENT/FEXTRA/FHCRC/MTIME header fields, 1-3 gzip members whose ends are "
             "optionally padded (FEXTRA) onto / next to multiples of the 512- and 1024-byte buffers.  Positive: "
             "stdout and exit status of 2-4 commands on X.gz equal those on X.  Negative: every truncation point of "
@@ -137,6 +147,12 @@ class C10(CheckBase):
             cl.append("size-not-multiple-of-512")
         if case["members"] > 1:
             cl.append("members>=2")
+        if case.get("sparse"):
+            cl.append("sparse-image")
+        if len(gzdata) <= 512:
+            cl.append("gz<=512-bytes")
+        if len(data) % 1024 == 0:
+            cl.append("image-multiple-of-1024")
         if case.get("align"):
             cl.append("member-ends-aligned-to-buffer")
         v.classes.extend(cl)
